@@ -27,7 +27,7 @@ ASSUMPTIONS = [
 ]
 TIERS = {
     'quick': {'runs': 8000, 'budget_s': 40, 'max_body': 1024, 'max_tunnel': 2048, 'max_units': 300},
-    'thorough': {'runs': 600000, 'budget_s': 900, 'max_body': 1 << 20, 'max_tunnel': 4 << 20, 'max_units': 4000},
+    'thorough': {'runs': 600000, 'budget_s': 900, 'watchdog_s': 600, 'max_body': 1 << 20, 'max_tunnel': 2 << 20, 'max_units': 4000},
 }
 
 
